@@ -2,195 +2,260 @@ import InfluxQL.Lemmas.Regex
 namespace InfluxQL.Rx
 open InfluxQL Gen
 
-/-! ## Evaluation of the rewritten tests -/
+/-! ## Conditions -/
 
-/-- `before ≈ after`: equal, or `nil` became `false` (a regex test on a non-string gives nil,
-the equality test that replaces it gives false). -/
-def Rel (v w : Val) : Prop := v = w ∨ (v = .nil ∧ w = .bool false)
-
-theorem Rel.refl (v : Val) : Rel v v := Or.inl rfl
-
-theorem Rel.truthy {v w : Val} (h : Rel v w) : truthy v = truthy w := by
-  rcases h with rfl | ⟨rfl, rfl⟩ <;> rfl
-
-/-- `AND` / `OR` respect `≈` in both operands. -/
-theorem evalLogic_rel (isOr : Bool) {a a' b b' : Val} (ha : Rel a a') (hb : Rel b b') :
-    Rel (evalLogic isOr a b) (evalLogic isOr a' b') := by
-  rcases ha with rfl | ⟨rfl, rfl⟩ <;> rcases hb with rfl | ⟨rfl, rfl⟩
-  · exact Rel.refl _
-  · cases a <;> cases isOr <;> simp [evalLogic, Rel]
-  · cases b <;> cases isOr <;> simp [evalLogic, Rel]
-  · cases isOr <;> simp [evalLogic, Rel]
-
-/-- The boolean an equality test against a literal yields. -/
-def strCmpB (neg : Bool) (v : Val) (lit : Str) : Bool :=
-  match v with
-  | .str x => if neg then x ≠ ofStr lit else x = ofStr lit
-  | _ => false
-
-theorem evalStrCmp_eq (neg : Bool) (v : Val) (lit : Str) : evalStrCmp neg v lit = .bool (strCmpB neg v lit) := by
-  cases v <;> simp [evalStrCmp, strCmpB]
-
-section
-variable (matchStr : Str → GoStr → Bool) (atom : Expr → Val)
-
-theorem eval_and (l r : Expr) :
-    eval matchStr atom (.binary .AND l r) = evalLogic false (eval matchStr atom l) (eval matchStr atom r) := by
-  simp [eval]
-
-theorem eval_or (l r : Expr) :
-    eval matchStr atom (.binary .OR l r) = evalLogic true (eval matchStr atom l) (eval matchStr atom r) := by
-  simp [eval]
-
-theorem eval_paren (e : Expr) : eval matchStr atom (.paren e) = eval matchStr atom e := by
-  simp [eval]
-
-theorem eval_eq_lit (l : Expr) (lit : Str) :
-    eval matchStr atom (.binary .EQ l (.string lit)) = .bool (strCmpB false (eval matchStr atom l) lit) := by
-  simp [eval, evalStrCmp_eq]
-
-theorem eval_neq_lit (l : Expr) (lit : Str) :
-    eval matchStr atom (.binary .NEQ l (.string lit)) = .bool (strCmpB true (eval matchStr atom l) lit) := by
-  simp [eval, evalStrCmp_eq]
-
-theorem eval_eqregex (l : Expr) (src : Str) :
-    eval matchStr atom (.binary .EQREGEX l (.regex src)) = evalRegexCmp matchStr false (eval matchStr atom l) src := by
-  simp [eval]
-
-theorem eval_neqregex (l : Expr) (src : Str) :
-    eval matchStr atom (.binary .NEQREGEX l (.regex src)) = evalRegexCmp matchStr true (eval matchStr atom l) src := by
-  simp [eval]
-
-theorem eval_stripParen (e : Expr) : eval matchStr atom (stripParen e) = eval matchStr atom e := by
-  cases e <;> simp [stripParen, eval_paren]
-
-theorem eval_chain_or (lhs : Expr) (vs : List Str) (acc : Expr) (b : Bool)
-    (h : eval matchStr atom acc = .bool b) :
-    eval matchStr atom (chain .EQ .OR lhs acc vs) =
-      .bool (b || vs.any (strCmpB false (eval matchStr atom lhs))) := by
-  induction vs generalizing acc b with
-  | nil => simp [chain, h]
-  | cons v vs ih =>
-    rw [chain, ih _ (b || strCmpB false (eval matchStr atom lhs) v)]
-    · simp [Bool.or_assoc]
-    · rw [eval_or, h, eval_eq_lit]; simp [evalLogic]
-
-theorem eval_chain_and (lhs : Expr) (vs : List Str) (acc : Expr) (b : Bool)
-    (h : eval matchStr atom acc = .bool b) :
-    eval matchStr atom (chain .NEQ .AND lhs acc vs) =
-      .bool (b && vs.all (strCmpB true (eval matchStr atom lhs))) := by
-  induction vs generalizing acc b with
-  | nil => simp [chain, h]
-  | cons v vs ih =>
-    rw [chain, ih _ (b && strCmpB true (eval matchStr atom lhs) v)]
-    · simp [Bool.and_assoc]
-    · rw [eval_and, h, eval_neq_lit]; simp [evalLogic]
-
-/-- The OR chain is true iff the value equals one of the substituted literals. -/
-theorem eval_tests_or (lhs : Expr) (vals : List Str) :
-    eval matchStr atom (literalTests .EQ .OR lhs vals) =
-      .bool ((rewriteLits vals).any (strCmpB false (eval matchStr atom lhs))) := by
-  match vals with
-  | [] => simp [literalTests, rewriteLits, eval_eq_lit]
-  | [v] => simp [literalTests, rewriteLits, eval_eq_lit]
-  | v :: w :: vs =>
-    have e : literalTests .EQ .OR lhs (v :: w :: vs) =
-        .paren (chain .EQ .OR lhs (.binary .EQ lhs (.string v)) (w :: vs)) := rfl
-    rw [e, eval_paren, eval_chain_or matchStr atom lhs (w :: vs) _ _ (eval_eq_lit matchStr atom lhs v)]
-    simp [rewriteLits]
-
-/-- The AND chain is true iff the value differs from all the substituted literals. -/
-theorem eval_tests_and (lhs : Expr) (vals : List Str) :
-    eval matchStr atom (literalTests .NEQ .AND lhs vals) =
-      .bool ((rewriteLits vals).all (strCmpB true (eval matchStr atom lhs))) := by
-  match vals with
-  | [] => simp [literalTests, rewriteLits, eval_neq_lit]
-  | [v] => simp [literalTests, rewriteLits, eval_neq_lit]
-  | v :: w :: vs =>
-    have e : literalTests .NEQ .AND lhs (v :: w :: vs) =
-        .paren (chain .NEQ .AND lhs (.binary .NEQ lhs (.string v)) (w :: vs)) := rfl
-    rw [e, eval_paren, eval_chain_and matchStr atom lhs (w :: vs) _ _ (eval_neq_lit matchStr atom lhs v)]
-    simp [rewriteLits]
-
-/-- `exact` (what `matchExactRegex` answers) is sound for `matchStr` (what `MatchString`
-decides): the literals substituted are, byte for byte, the accepted strings. -/
-def ExactSound (exact : Str → Option (List Str)) : Prop :=
-  ∀ src L, exact src = some L → ∀ x : GoStr, matchStr src x = true ↔ x ∈ (rewriteLits L).map ofStr
-
-theorem any_strCmp_str (x : GoStr) (lits : List Str) :
-    lits.any (strCmpB false (.str x)) = true ↔ x ∈ lits.map ofStr := by
-  simp only [List.any_eq_true, strCmpB, Bool.false_eq_true, if_false, decide_eq_true_eq, List.mem_map]
-  constructor
-  · rintro ⟨l, hl, rfl⟩; exact ⟨l, hl, rfl⟩
-  · rintro ⟨l, hl, rfl⟩; exact ⟨l, hl, rfl⟩
-
-theorem all_strCmp_str (x : GoStr) (lits : List Str) :
-    lits.all (strCmpB true (.str x)) = !(lits.any (strCmpB false (.str x))) := by
-  induction lits with
-  | nil => rfl
-  | cons l ls ih => simp only [List.all_cons, List.any_cons, ih, strCmpB, if_true, Bool.false_eq_true, if_false,
-      Bool.not_or]; simp
-
-theorem rewriteNode_regex (exact : Str → Option (List Str)) (op : Token) (lhs : Expr) (src : Str) :
-    rewriteNode exact (.binary op lhs (.regex src)) =
-      if op = .EQREGEX then
-        match exact src with
-        | none => .binary op lhs (.regex src)
-        | some vals => literalTests .EQ .OR lhs vals
-      else if op = .NEQREGEX then
-        match exact src with
-        | none => .binary op lhs (.regex src)
-        | some vals => literalTests .NEQ .AND lhs vals
-      else .binary op lhs (.regex src) := rfl
-
-theorem rewriteLits_ne_nil (vals : List Str) : rewriteLits vals ≠ [] := by
-  cases vals <;> simp [rewriteLits]
-
-/-- One regex test and what replaces it evaluate to `≈` values, whatever the left operand is. -/
-theorem rewriteNode_rel {exact : Str → Option (List Str)} (hs : ExactSound matchStr exact)
-    (op : Token) (lhs : Expr) (src : Str) :
-    Rel (eval matchStr atom (.binary op lhs (.regex src)))
-      (eval matchStr atom (rewriteNode exact (.binary op lhs (.regex src)))) := by
-  rw [rewriteNode_regex]
-  by_cases h1 : op = .EQREGEX
-  · subst h1
-    simp only [if_true]
-    cases he : exact src with
-    | none => exact Rel.refl _
-    | some vals =>
-      simp only
-      rw [eval_tests_or, eval_eqregex]
-      cases hv : eval matchStr atom lhs with
-      | str x =>
-        left
-        simp only [evalRegexCmp, Bool.false_eq_true, if_false, Val.bool.injEq]
-        rw [Bool.eq_iff_iff, any_strCmp_str]
-        exact hs src vals he x
-      | nil => right; exact ⟨rfl, by simp [strCmpB]⟩
-      | bool b => right; exact ⟨rfl, by simp [strCmpB]⟩
-      | other => right; exact ⟨rfl, by simp [strCmpB]⟩
-  · rw [if_neg h1]
-    by_cases h2 : op = .NEQREGEX
-    · subst h2
-      simp only [if_true]
-      cases he : exact src with
-      | none => exact Rel.refl _
-      | some vals =>
-        simp only
-        rw [eval_tests_and, eval_neqregex]
-        cases hv : eval matchStr atom lhs with
-        | str x =>
-          left
-          simp only [evalRegexCmp, if_true, Val.bool.injEq]
-          rw [all_strCmp_str]
-          congr 1
-          rw [Bool.eq_iff_iff, any_strCmp_str]
-          exact hs src vals he x
-        | nil => right; refine ⟨rfl, ?_⟩; obtain ⟨l, ls, e⟩ := List.exists_cons_of_ne_nil (rewriteLits_ne_nil vals); rw [e]; simp [strCmpB]
-        | bool b => right; refine ⟨rfl, ?_⟩; obtain ⟨l, ls, e⟩ := List.exists_cons_of_ne_nil (rewriteLits_ne_nil vals); rw [e]; simp [strCmpB]
-        | other => right; refine ⟨rfl, ?_⟩; obtain ⟨l, ls, e⟩ := List.exists_cons_of_ne_nil (rewriteLits_ne_nil vals); rw [e]; simp [strCmpB]
-    · rw [if_neg h2]; exact Rel.refl _
-
+mutual
+  /-- Does a regex operator occur anywhere in the expression (call arguments included)? -/
+  def hasRegexOp : Expr → Bool
+    | .binary op l r => op == .EQREGEX || op == .NEQREGEX || hasRegexOp l || hasRegexOp r
+    | .paren e => hasRegexOp e
+    | .call _ args => hasRegexOpArgs args
+    | _ => false
+  def hasRegexOpArgs : List Expr → Bool
+    | [] => false
+    | a :: rest => hasRegexOp a || hasRegexOpArgs rest
 end
+
+theorem rewriteNode_other (exact : Str → Option (List Str)) {op : Token} (l r : Expr)
+    (h1 : op ≠ .EQREGEX) (h2 : op ≠ .NEQREGEX) : rewriteNode exact (.binary op l r) = .binary op l r := by
+  cases r <;> first | rfl | (rw [rewriteNode_regex, if_neg h1, if_neg h2])
+
+theorem rewriteExpr_binary (exact : Str → Option (List Str)) (op : Token) (l r : Expr) :
+    rewriteExpr exact (.binary op l r) =
+      rewriteNode exact (.binary op (rewriteExpr exact l) (rewriteExpr exact r)) := by
+  rw [rewriteExpr]
+
+theorem rewriteExpr_paren (exact : Str → Option (List Str)) (e : Expr) :
+    rewriteExpr exact (.paren e) = .paren (rewriteExpr exact e) := by
+  rw [rewriteExpr]
+
+theorem rewriteExpr_regex (exact : Str → Option (List Str)) (src : Str) :
+    rewriteExpr exact (.regex src) = .regex src := by
+  unfold rewriteExpr; rfl
+
+mutual
+  /-- Without a regex operator nothing changes. -/
+  theorem rewriteExpr_noop (exact : Str → Option (List Str)) :
+      ∀ e : Expr, hasRegexOp e = false → rewriteExpr exact e = e
+    | .binary op l r, h => by
+      rw [hasRegexOp] at h
+      simp only [Bool.or_eq_false_iff, beq_eq_false_iff_ne, ne_eq] at h
+      rw [rewriteExpr_binary, rewriteExpr_noop exact l h.1.2, rewriteExpr_noop exact r h.2,
+        rewriteNode_other exact l r h.1.1.1 h.1.1.2]
+    | .paren e, h => by
+      rw [hasRegexOp] at h
+      rw [rewriteExpr_paren, rewriteExpr_noop exact e h]
+    | .call name args, h => by
+      rw [hasRegexOp] at h
+      rw [rewriteExpr, rewriteArgs_noop exact args h]
+    | .varRef _ _, _ => by unfold rewriteExpr; rfl
+    | .distinct _, _ => by unfold rewriteExpr; rfl
+    | .wildcard _, _ => by unfold rewriteExpr; rfl
+    | .regex _, _ => by unfold rewriteExpr; rfl
+    | .string _, _ => by unfold rewriteExpr; rfl
+    | .number _, _ => by unfold rewriteExpr; rfl
+    | .integer _, _ => by unfold rewriteExpr; rfl
+    | .unsigned _, _ => by unfold rewriteExpr; rfl
+    | .boolean _, _ => by unfold rewriteExpr; rfl
+    | .duration _, _ => by unfold rewriteExpr; rfl
+    | .time _, _ => by unfold rewriteExpr; rfl
+    | .nil, _ => by unfold rewriteExpr; rfl
+    | .list _, _ => by unfold rewriteExpr; rfl
+    | .boundParam _, _ => by unfold rewriteExpr; rfl
+  theorem rewriteArgs_noop (exact : Str → Option (List Str)) :
+      ∀ args : List Expr, hasRegexOpArgs args = false → rewriteArgs exact args = args
+    | [], _ => by rw [rewriteArgs]
+    | a :: rest, h => by
+      rw [hasRegexOpArgs, Bool.or_eq_false_iff] at h
+      rw [rewriteArgs, rewriteExpr_noop exact a h.1, rewriteArgs_noop exact rest h.2]
+end
+
+/-- Conditions in which every regex test stands under `AND`, `OR` and parentheses only (its
+truth value is what counts there), the tested operand itself being free of regex tests.
+Sub-expressions without regex operators are arbitrary. -/
+inductive Cond : Expr → Prop
+  | atom {e : Expr} : hasRegexOp e = false → Cond e
+  | test {op : Token} {lhs : Expr} {src : Str} : hasRegexOp lhs = false → Cond (.binary op lhs (.regex src))
+  | and {l r : Expr} : Cond l → Cond r → Cond (.binary .AND l r)
+  | or {l r : Expr} : Cond l → Cond r → Cond (.binary .OR l r)
+  | paren {e : Expr} : Cond e → Cond (.paren e)
+
+/-- Before and after the rewrite a condition of class `Cond` evaluates to `≈` values. -/
+theorem rewriteExpr_rel (matchStr : Str → GoStr → Bool) (atom : Expr → Val)
+    {exact : Str → Option (List Str)} (hs : ExactSound matchStr exact) {e : Expr} (hc : Cond e) :
+    Rel (eval matchStr atom e) (eval matchStr atom (rewriteExpr exact e)) := by
+  induction hc with
+  | atom h => rw [rewriteExpr_noop exact _ h]; exact Rel.refl _
+  | @test op lhs src h =>
+    rw [rewriteExpr_binary, rewriteExpr_noop exact _ h, rewriteExpr_regex]
+    exact rewriteNode_rel matchStr atom hs op lhs src
+  | and _ _ ihl ihr =>
+    rw [rewriteExpr_binary, rewriteNode_other exact _ _ (by decide) (by decide), eval_and, eval_and]
+    exact evalLogic_rel false ihl ihr
+  | or _ _ ihl ihr =>
+    rw [rewriteExpr_binary, rewriteNode_other exact _ _ (by decide) (by decide), eval_or, eval_or]
+    exact evalLogic_rel true ihl ihr
+  | paren _ ih =>
+    rw [rewriteExpr_paren, eval_paren, eval_paren]; exact ih
+
+/-! ## What `matchRegex` accepts -/
+
+mutual
+  /-- The node and all its descendants. -/
+  def nodes : Regex → List Regex
+    | .mk op flags rune sub => .mk op flags rune sub :: nodesAll sub
+  def nodesAll : List Regex → List Regex
+    | [] => []
+    | r :: rest => nodes r ++ nodesAll rest
+end
+
+/-- A node `matchRegex` can go through: one of the five operators of its switch, without the
+fold-case flag. -/
+def acceptedNode (n : Regex) : Bool :=
+  !hasFold n.flags && (n.op == .literal || n.op == .capture || n.op == .concat || n.op == .charClass || n.op == .alternate)
+
+theorem nodes_mk (op : Op) (flags : Nat) (rune : List Nat) (sub : List Regex) :
+    nodes (.mk op flags rune sub) = .mk op flags rune sub :: nodesAll sub := by rw [nodes]
+
+theorem nodesAll_cons (r : Regex) (rest : List Regex) : nodesAll (r :: rest) = nodes r ++ nodesAll rest := by
+  rw [nodesAll]
+
+theorem wf_sub_nil {op : Op} {flags : Nat} {rune : List Nat} {sub : List Regex}
+    (hw : (Regex.mk op flags rune sub).wf = true) (h : op = .literal ∨ op = .charClass) : sub = [] := by
+  rw [wf_mk, Bool.and_eq_true] at hw
+  rcases h with rfl | rfl
+  · exact List.isEmpty_iff.mp hw.1
+  · simp only [Bool.and_eq_true] at hw; exact List.isEmpty_iff.mp hw.1.2
+
+mutual
+  /-- On a well-formed tree an answer of `matchRegex` means every node of the tree is accepted. -/
+  theorem regex_nodes : ∀ (re : Regex) (L : List Str), matchRegex re = some L → re.wf = true →
+      ∀ n, n ∈ nodes re → acceptedNode n = true
+    | .mk op flags rune sub, L, h, hw, n, hn => by
+      rw [nodes_mk, List.mem_cons] at hn
+      have hw' := hw
+      rw [wf_mk, Bool.and_eq_true] at hw'
+      cases op with
+      | literal =>
+        rw [matchRegex] at h
+        split at h
+        · simp at h
+        · rename_i hf
+          rw [wf_sub_nil hw (Or.inl rfl)] at hn
+          rcases hn with rfl | hn
+          · simp only [Bool.not_eq_true] at hf; simp [acceptedNode, Regex.flags, Regex.op, hf]
+          · simp [nodesAll] at hn
+      | charClass =>
+        rw [matchRegex] at h
+        split at h
+        · simp at h
+        · rename_i hf
+          rw [wf_sub_nil hw (Or.inr rfl)] at hn
+          rcases hn with rfl | hn
+          · simp only [Bool.not_eq_true] at hf; simp [acceptedNode, Regex.flags, Regex.op, hf]
+          · simp [nodesAll] at hn
+      | capture =>
+        rw [matchRegex] at h
+        split at h
+        · simp at h
+        · rename_i hf
+          rcases hn with rfl | hn
+          · simp only [Bool.not_eq_true] at hf; simp [acceptedNode, Regex.flags, Regex.op, hf]
+          · have h1 := hw'.1
+            simp only [beq_iff_eq] at h1
+            exact first_nodes sub L h hw'.2 h1 n hn
+      | concat =>
+        rw [matchRegex] at h
+        split at h
+        · simp at h
+        · rename_i hf
+          rcases hn with rfl | hn
+          · simp only [Bool.not_eq_true] at hf; simp [acceptedNode, Regex.flags, Regex.op, hf]
+          · exact concat_nodes sub L h hw'.2 n hn
+      | alternate =>
+        rw [matchRegex] at h
+        split at h
+        · simp at h
+        · rename_i hf
+          rcases hn with rfl | hn
+          · simp only [Bool.not_eq_true] at hf; simp [acceptedNode, Regex.flags, Regex.op, hf]
+          · cases ha : matchAlt sub with
+            | none => rw [ha] at h; simp at h
+            | some names => exact alt_nodes sub names ha hw'.2 n hn
+      | _ => simp [matchRegex] at h
+  theorem first_nodes : ∀ (sub : List Regex) (L : List Str), matchFirst sub = some L → wfAll sub = true →
+      sub.length = 1 → ∀ n, n ∈ nodesAll sub → acceptedNode n = true
+    | [], L, h, _, _, _, _ => by simp [matchFirst] at h
+    | r :: rest, L, h, hw, hl, n, hn => by
+      rw [matchFirst] at h
+      rw [wfAll_cons, Bool.and_eq_true] at hw
+      have : rest = [] := by cases rest with | nil => rfl | cons _ _ => simp at hl
+      subst this
+      rw [nodesAll_cons, nodesAll, List.append_nil] at hn
+      exact regex_nodes r L h hw.1 n hn
+  theorem concat_nodes : ∀ (sub : List Regex) (L : List Str), matchConcat sub = some L → wfAll sub = true →
+      ∀ n, n ∈ nodesAll sub → acceptedNode n = true
+    | [], L, h, _, _, _ => by simp [matchConcat] at h
+    | r :: rest, L, h, hw, n, hn => by
+      rw [matchConcat] at h
+      rw [wfAll_cons, Bool.and_eq_true] at hw
+      rw [nodesAll_cons, List.mem_append] at hn
+      cases hr : matchRegex r with
+      | none => rw [hr] at h; simp at h
+      | some names =>
+        rw [hr] at h
+        rcases hn with hn | hn
+        · exact regex_nodes r names hr hw.1 n hn
+        · exact loop_nodes rest names L h hw.2 n hn
+  theorem loop_nodes : ∀ (rest : List Regex) (names L : List Str), concatLoop names rest = some L →
+      wfAll rest = true → ∀ n, n ∈ nodesAll rest → acceptedNode n = true
+    | [], _, _, _, _, n, hn => by simp [nodesAll] at hn
+    | r :: rest, names, L, h, hw, n, hn => by
+      rw [concatLoop] at h
+      rw [wfAll_cons, Bool.and_eq_true] at hw
+      rw [nodesAll_cons, List.mem_append] at hn
+      cases hr : matchRegex r with
+      | none => rw [hr] at h; simp at h
+      | some vals =>
+        rw [hr] at h
+        simp only at h
+        cases hc : concatStep names vals with
+        | none => rw [hc] at h; simp at h
+        | some names' =>
+          rw [hc] at h
+          rcases hn with hn | hn
+          · exact regex_nodes r vals hr hw.1 n hn
+          · exact loop_nodes rest names' L h hw.2 n hn
+  theorem alt_nodes : ∀ (sub : List Regex) (L : List Str), matchAlt sub = some L → wfAll sub = true →
+      ∀ n, n ∈ nodesAll sub → acceptedNode n = true
+    | [], _, _, _, n, hn => by simp [nodesAll] at hn
+    | r :: rest, L, h, hw, n, hn => by
+      rw [matchAlt] at h
+      rw [wfAll_cons, Bool.and_eq_true] at hw
+      rw [nodesAll_cons, List.mem_append] at hn
+      cases hr : matchRegex r with
+      | none => rw [hr] at h; simp at h
+      | some vals =>
+        rw [hr] at h
+        cases ha : matchAlt rest with
+        | none => rw [ha] at h; simp at h
+        | some more =>
+          rcases hn with hn | hn
+          · exact regex_nodes r vals hr hw.1 n hn
+          · exact alt_nodes rest more ha hw.2 n hn
+end
+
+/-- Pigeonhole: a duplicate-free list inside another list is no longer than it. -/
+theorem nodup_length_le {ws L : List Str} (hn : ws.Nodup) (hs : ∀ w, w ∈ ws → w ∈ L) : ws.length ≤ L.length := by
+  induction ws generalizing L with
+  | nil => simp
+  | cons w ws ih =>
+    rw [List.nodup_cons] at hn
+    have hw : w ∈ L := hs w List.mem_cons_self
+    have := ih (L := L.erase w) hn.2 (fun x hx => (List.mem_erase_of_ne (fun (e : x = w) => hn.1 (by rw [← e]; exact hx))).mpr (hs x (List.mem_cons_of_mem _ hx)))
+    rw [List.length_erase_of_mem hw] at this
+    have : 0 < L.length := List.length_pos_of_mem hw
+    simp only [List.length_cons]
+    omega
 
 end InfluxQL.Rx
